@@ -341,7 +341,8 @@ pub fn run_contexts(out: &mut Out, cfg: &Cfg, seed: u64, n: usize) {
     let specials = ["-3", "+7", "-0.5", "1.5", "-", "+", "*", "?", "!", "a-b", "1-2", "x+1", "$", "$1", "007", "1e5", "...", "a.b", "3.", ".5",
                     "1 2", "1.5 2", "12 ", " 12", "- 3", "12\u{a0}", "1\u{2003}2", "1\t2", "+", "+ 7", "7+", "-.5", "5.", "0", "-0", "9223372036854775807", "9223372036854775808", "-9223372036854775808",
                     "$Ω", "$é1", "$_x", "$_", "\\,", "a\\,b", "\"1 2\"", "\"12\"",
-                    "$X + 1", "1 + 2", "$A * $B", "a - b", "6 / 3", "1.5 + $X"];
+                    "$X + 1", "1 + 2", "$A * $B", "a - b", "6 / 3", "1.5 + $X",
+                    "555-1234", "2023-01-05", "10+20", "1.5-2.5", "7-", "-7-", "1e-5", "3-a", "a-3", "--3", "+-3"];
     for i in 0..n {
         let text = if i % 3 == 0 { (*r.pick(&specials)).to_string() } else { let mut g = Gen{r: &mut r, depth: 2}; g.term(0).0 };
         if !out.begin() { continue; }
@@ -375,7 +376,8 @@ pub fn run_contexts(out: &mut Out, cfg: &Cfg, seed: u64, n: usize) {
         out.impl_line(id, &res.join(" | "));
         if cfg.want("C20") {
             // a text with a top-level comma / bar / bracket is several things in a larger context: only compare single terms
-            let single = matches!(alone, Parsed::Term(_)) && !text.contains(',') && !text.contains('|') && !text.contains(" = ") && !text.contains(" + ") && !text.contains(" - ") && !text.contains(" * ") && !text.contains(" / ");
+            // one term text: judged whenever some context accepts it (a context that rejects or panics while another accepts is a difference too)
+            let single = res.iter().any(|x| x.starts_with("ok ")) && !text.contains(',') && !text.contains('|') && !text.contains(" = ") && !text.contains(" + ") && !text.contains(" - ") && !text.contains(" * ") && !text.contains(" / ");
             let arith = [" + ", " - ", " * ", " / "].iter().any(|op| text.contains(op)) && !text.contains(',') && !text.contains('|') && !text.contains(" = ");
             if arith && matches!(alone, Parsed::Term(Unifiable::SFunction{..})) {
                 // an arithmetic expression: a function term alone; must be the same function term everywhere
